@@ -38,6 +38,12 @@ def run(ctx: Ctx):
         "counts are non-negative",
         "the raw tensor layout of a slice is R[,Rsel],C[,Csel] with sel index 0 = selected (C01 checks the constant that defines it)",
     ]
+    from . import c16
+
+    # the unweighted bases count RESPONDENTS: the unweighted counts they are summed from are never a weighted measure
+    c16.count_cascade(ctx, "provenance.count-source", "unweighted_counts", ["unweighted_valid_counts", "unweighted_counts"],
+                      "unweighted valid counts, else the response's unweighted counts (never a weighted measure)",
+                      "an unweighted base is a number of respondents")
     layouts_matrix(ctx)
     layouts_stripe(ctx)
     base_blocks(ctx)
